@@ -26,8 +26,19 @@ fn ref_cookies(fields: &[String]) -> Result<BTreeMap<String, String>, ()> {
 }
 fn check_request(fields: &[String]) -> Option<String> {
     let desc = format!("reqcookie fields={}", fields.iter().map(|f| hex(f.as_bytes())).collect::<Vec<_>>().join(","));
+    let lines: Vec<String> = fields.iter().map(|f| format!("Cookie: {f}")).collect();
+    check_lines(desc, &lines, fields)
+}
+/// whole field lines, Cookie fields among others: the map is that of the Cookie fields in the order sent, wherever the
+/// other fields stand (the reader removes some of them from the list before it looks at the cookies)
+fn check_mixed(lines: &[String]) -> Option<String> {
+    let desc = format!("reqmix lines={}", lines.iter().map(|f| hex(f.as_bytes())).collect::<Vec<_>>().join(","));
+    let fields: Vec<String> = lines.iter().filter(|l| l.to_ascii_lowercase().starts_with("cookie:")).map(|l| l[7..].to_string()).collect();
+    check_lines(desc, lines, &fields)
+}
+fn check_lines(desc: String, lines: &[String], fields: &[String]) -> Option<String> {
     let mut msg = b"GET / HTTP/1.1\r\n".to_vec();
-    for f in fields { msg.extend_from_slice(format!("Cookie: {f}\r\n").as_bytes()); }
+    for l in lines { msg.extend_from_slice(format!("{l}\r\n").as_bytes()); }
     msg.extend_from_slice(b"\r\n");
     let want = ref_cookies(fields);
     let r = std::panic::catch_unwind(|| {
@@ -111,6 +122,9 @@ fn main() {
         let r = if w.starts_with("reqcookie") {
             let fs: Vec<String> = w.split("fields=").nth(1).unwrap().split(' ').next().unwrap().split(',').map(|h| String::from_utf8(unhex(h)).unwrap()).collect();
             check_request(&fs)
+        } else if w.starts_with("reqmix") {
+            let ls: Vec<String> = w.split("lines=").nth(1).unwrap().split(' ').next().unwrap().split(',').map(|h| String::from_utf8(unhex(h)).unwrap()).collect();
+            check_mixed(&ls)
         } else { check_set_cookie(w.split("c=").nth(1).unwrap().split(' ').next().unwrap()) };
         match r { Some(m) => { println!("WITNESS {m}"); std::process::exit(1) } None => { println!("OK witness no longer fails"); std::process::exit(0) } }
     }
@@ -130,6 +144,21 @@ fn main() {
     for a in &small { for b in &small { n += 1; if let Some(m) = check_request(&[(*a).clone(), (*b).clone()]) { if found.len() < 6 { found.push(m) } } } }
     for v in ["a=b; c=d", "a=b;c=d;", ";;a=b", "a==", "a=b=c", "=v", "a=\"q\"", "a=b ; c=d", "a=1; a=2", "x", "a=b; x", "a=b;\tc=d", "SID=31d4d96e407aad42; lang=en-US"] {
         n += 1; if let Some(m) = check_request(&[v.to_string()]) { if found.len() < 6 { found.push(m) } }
+    }
+    // (a') Cookie fields among the fields the reader consumes (Content-Type, Expect, Transfer-Encoding) and one it leaves: every
+    // placement of up to two of those among two or three Cookie fields that repeat a name
+    let others = ["content-type: text/plain", "Expect: 100-continue", "transfer-encoding: chunked", "x-other: 1", "Content-Type: a/b"];
+    let cookie_sets: [&[&str]; 4] = [&["a=1", "a=2"], &["a=1", "b=x", "a=3"], &["a=1; b=x", "b=y", "a=3"], &["a=1", "a=2", "a=3"]];
+    for cs in cookie_sets {
+        let base: Vec<String> = cs.iter().map(|c| format!("cookie: {c}")).collect();
+        for o1 in 0..others.len() { for p1 in 0..=base.len() {
+            let mut l1 = base.clone(); l1.insert(p1, others[o1].to_string());
+            n += 1; if let Some(m) = check_mixed(&l1) { if found.len() < 6 { found.push(m) } }
+            for o2 in 0..others.len() { if o2 == o1 || (o1 == 0 && o2 == 4) || (o1 == 4 && o2 == 0) { continue; } for p2 in 0..=l1.len() {
+                let mut l2 = l1.clone(); l2.insert(p2, others[o2].to_string());
+                n += 1; if let Some(m) = check_mixed(&l2) { if found.len() < 6 { found.push(m) } }
+            } }
+        } }
     }
     // (b) Set-Cookie: every combination of attribute presence with boundary values
     let names = ["n", "SID", "a-b_c.d!#$%&'*+^`|~"];
